@@ -96,7 +96,7 @@ func init() {
 		// R06j: a line that still aliases bufio's buffer when the buffer is refilled is overwritten with later input (the
 		// bug behind upstream issue 213) = C09 R09a, the borrowed-buffer discipline
 		if c.CountRule("R06j") == 0 {
-			importRules(c, "C09", map[string]string{"R09a": "R06j", "R09i": "R06j"})
+			importRules(c, "C09", map[string]string{"R09a": "R06j", "R09i": "R06j", "R09j": "R06j"})
 			c.Floor("R06j", 3, "borrow stores of the csv2/fixedlength2 readers")
 		}
 		if c.CountRule("R06i") == 0 {
